@@ -25,6 +25,11 @@ CLAIMED = {
         note="'Samples follow the declared distribution' concerns NumPy's generator (KS test in the search only); NumPy-ufunc priors and ComplexPrior are search-only; scipy's norm.pdf is modelled by its closed form; reals, not IEEE.",
         technique="Lean 4 theorems (Mathlib Gaussian measure, interval integral, structural induction over expressions and over the sampling loop) + differential correspondence + numeric/statistical search",
         ref="DESIGN.md §5 C14"),
+    "C20": dict(
+        text="Proof (Lean 4, reals): a point is inside a (layered) sphere iff its squared distance is below some layer's r^2, the reported layer is the first such layer in list order and the reported index is that layer's; ellipsoid containment is the analytic inequality; union/difference/intersection are or / and-not / and; translating any shape (CSG included) translates its containment region; the reported bounding box contains every interior point for spheres, ellipsoids and all three set operations (induction over the shape tree); the reported overlapping pairs are exactly the pairs i<j with sqrt(dist^2) < R_i+R_j (squared and sqrt forms proved equivalent), the warning decision is `overlaps non-empty and warn`, the running maximum behind largest_overlap dominates every pair value, is >= 0 and is one of them or 0; negative radii are rejected. The model runs at exact rationals against the implementation (dyadic inputs, points within 1e-9 of and exactly on surfaces, touching spheres on 3-4-5 triples).",
+        note="Voxelisation convergence is a limit statement (search only, refining grids); largest_overlap's sqrt is run at Float; warning delivery through Python's filter machinery is search-only; Ellipsoid containment ignores rotation as the source notes; nested CSG is outside the property (pairs of primitives).",
+        technique="Lean 4 theorems (induction over layers / shape trees, nlinarith for boxes, Real.sqrt_lt_sqrt) + exact rational correspondence + analytic-inequality search",
+        ref="DESIGN.md §5 C20"),
 }
 
 NOT_YET = {}
